@@ -15,19 +15,19 @@ Print Assumptions C10_grow_invisible.
 (* The formulas of the unfixed code (offset helper computing (old - ptr)/size; upvalues
    reached through cf.upvalues / vm.upvalues instead of the open list) change the view:
    two live frames suffice. *)
-Theorem C10_grow_refuted_old :
+Theorem C10_grow_old_refuted :
   exists s nb reach, GInv s /\ abs (grow_old s nb reach) <> abs_resized s.
 Proof. exact grow_old_visible. Qed.
-Print Assumptions C10_grow_refuted_old.
+Print Assumptions C10_grow_old_refuted.
 
 (* ... and an open upvalue is wrong whether it is reached zero times (not rebased), once
    (negated offset) or twice (points into the old array again). *)
-Theorem C10_grow_upvalue_refuted_old :
+Theorem C10_grow_old_upvalue_refuted :
   GInv witness_upvalue /\
   forall reach, In reach [[]; [0%nat]; [0%nat; 0%nat]] ->
     abs (grow_old witness_upvalue 50000 reach) <> abs_resized witness_upvalue.
 Proof. exact grow_old_upvalue_visible. Qed.
-Print Assumptions C10_grow_upvalue_refuted_old.
+Print Assumptions C10_grow_old_upvalue_refuted.
 
 (* BOUNDED size/growth independence (finite statement, bound stated): two runs of the same
    program of at most BOUND = 6 operations over the 19-operation alphabet - equal once the
